@@ -655,7 +655,8 @@ def _run(ctx, cases, scratch):
         if rc != 0 or any(c["id"] not in results for c in part):
             ctx.breaks.append({"what": "harness c18 failed (rc=%d, %d/%d results)" % (rc, len(res), len(part)), "detail": err[-2000:]})
             return
-    kinds, outcomes = {}, {"aborted_events": 0, "committed_events": 0, "crashed_archetypes": 0, "events": 0, "ops_ok": 0, "ops_abort": 0, "ops_crash": 0}
+    kinds, outcomes = {}, {"aborted_events": 0, "committed_events": 0, "crashed_archetypes": 0, "events": 0, "ops_ok": 0, "ops_abort": 0, "ops_crash": 0,
+                          "precommit_refused_attempts": 0, "indexed_shared_ops_ok": 0, "indexed_local_ops_ok": 0}
     dom_checked = dom_amb = retained = retained_total = filelog_events = 0
     good = []
     for c in cases:
@@ -696,8 +697,11 @@ def _run(ctx, cases, scratch):
             outcomes["crashed_archetypes"] += sum(1 for f in r["finished"] if f not in ("", "done"))
             for pa in r["perf"]:
                 for t in pa:
+                    outcomes["precommit_refused_attempts"] += 1 if t.get("refused") else 0
                     for o in t["ops"]:
                         outcomes["ops_" + o["outc"]] += 1
+                        if o["outc"] == "ok" and o["idx"] and o["k"] in ("shr", "loc"):
+                            outcomes["indexed_shared_ops_ok" if o["k"] == "shr" else "indexed_local_ops_ok"] += 1
             c["_info"], c["_res"] = info, r
             good.append(c)
     ctx.extra["input_distribution"] = kinds
